@@ -9,18 +9,24 @@ args = sys.argv[2:]
 only = None
 if "--only" in args:
     i = args.index("--only"); only = args[i + 1]; args = args[:i] + args[i + 2:]
-lock = open(os.path.join(V, ".cache", "repo.lock"), "w")
+# The change is applied in a scratch worktree of /repo's HEAD (never in /repo itself) and the checks are pointed at it
+# with VERIF_REPO; this is the same code path as the registered commands, only the source directory differs.
+R = os.environ.get("VERIF_SEED_REPO", "/tmp/seedrepo")
+lock = open(os.path.join(V, ".cache", "seedrepo.lock"), "w")
 fcntl.flock(lock, fcntl.LOCK_EX)
-st = subprocess.run(["git", "-C", "/repo", "status", "--porcelain"], stdout=subprocess.PIPE, text=True).stdout.strip()
-if st:
-    sys.exit("refusing: /repo working tree is not clean:\n" + st)
-res = {"seed": seed, "head": subprocess.run(["git", "-C", "/repo", "rev-parse", "--short", "HEAD"], stdout=subprocess.PIPE, text=True).stdout.strip(), "checks": []}
+head = subprocess.run(["git", "-C", "/repo", "rev-parse", "HEAD"], stdout=subprocess.PIPE, text=True).stdout.strip()
+if not os.path.isdir(R):
+    subprocess.check_call(["git", "-C", "/repo", "worktree", "add", "-q", "--detach", R, head])
+subprocess.check_call(["git", "-C", R, "checkout", "-q", "--detach", head])
+subprocess.call(["git", "-C", R, "checkout", "-q", "--", "."])
+res = {"seed": seed, "head": head[:7], "checks": []}
 try:
-    subprocess.check_call(["git", "-C", "/repo", "apply", os.path.join(seed, "patch.diff")])
+    subprocess.check_call(["git", "-C", R, "apply", os.path.join(seed, "patch.diff")])
     for p in args:
         t0 = time.time()
         cmd = [os.path.join(V, "check"), p, "--tier", "quick"] + (["--only", only] if only else [])
-        env = dict(os.environ); env["VERIF_EVIDENCE_DIR"] = os.path.join(V, ".cache", "seed-evidence")
+        env = dict(os.environ); env["VERIF_EVIDENCE_DIR"] = os.path.join(V, ".cache", "seed-evidence"); env["VERIF_REPO"] = R; env["VERIF_LOG_TAG"] = ".seed"
+        env["VERIF_REPLAY_DIR"] = os.path.join(V, ".cache", "seed-replays")
         r = subprocess.run(cmd, cwd=V, stdout=subprocess.PIPE, stderr=subprocess.STDOUT, text=True, env=env)
         lines = r.stdout.splitlines()
         res["checks"].append({
@@ -31,7 +37,7 @@ try:
         })
         print(p, "exit", r.returncode, res["checks"][-1]["failed_harnesses"], flush=True)
 finally:
-    subprocess.call(["git", "-C", "/repo", "checkout", "--", "."])
+    subprocess.call(["git", "-C", R, "checkout", "-q", "--", "."])
 res["caught"] = any(c["exit"] == 1 for c in res["checks"])
 json.dump(res, open(os.path.join(seed, "eval.json"), "w"), indent=1)
 print("caught:", res["caught"])
